@@ -1018,24 +1018,29 @@ class Visitor(ast.NodeVisitor):
 
         body = [ast.Return(node)]  # type: List[ast.stmt]
         if assigned_names:
+            # The names of the helper must not hide the variables of the condition.
+            unique = uuid.uuid4().hex
+            read_assigned_name = "icontract_read_assigned_{}".format(unique)
+            assigned_name = "icontract_assigned_{}".format(unique)
+
             read_assigned_node = ast.parse(
-                "def read_assigned():\n"
-                "    assigned = dict()\n"
+                "def {}():\n".format(read_assigned_name)
+                + "    {} = {{}}\n".format(assigned_name)
                 + "".join(
                     "    try:\n"
-                    "        assigned[{name!r}] = {name}\n"
+                    "        {assigned}[{name!r}] = {name}\n"
                     "    except NameError:\n"
-                    "        pass\n".format(name=name)
+                    "        pass\n".format(assigned=assigned_name, name=name)
                     for name in assigned_names
                 )
-                + "    return assigned\n"
+                + "    return {}\n".format(assigned_name)
             ).body[0]
 
             body = [
                 read_assigned_node,
                 ast.Return(
                     ast.Tuple(
-                        elts=[node, ast.Name(id="read_assigned", ctx=ast.Load())],
+                        elts=[node, ast.Name(id=read_assigned_name, ctx=ast.Load())],
                         ctx=ast.Load(),
                     )
                 ),
